@@ -198,7 +198,7 @@ class C05(Prop):
                     out.append(viol("a control cycle returned without requesting anything (the fan was not taken over, no PWM written)", cops, cgo, upto=i))
                     break
                 t = int(post["last"])
-                if clean is not None and i < len(clean) and clean[i].startswith("ok") and not blind:
+                if clean is not None and i < len(clean) and kv(clean[i]).get("res") == "ok" and not blind:
                     lt = kv(clean[i]).get("last", "-")
                     if lt.lstrip("-").isdigit() and int(lt) != t:
                         out.append(viol(f"the cycle requested {t}; the current target dictates {lt} (the control algorithm steps from fan2go's own previous "
